@@ -16,6 +16,7 @@ from vlib import *
 from modcorpus import *
 import c03_util as U
 import c02 as C02
+import ext_layer            # extensibility layer (lib/ext_layer.py, notes/design/EXT.md)
 
 F_CHAIN = "C03-ber-chain-mixed-lengths"
 
@@ -376,6 +377,7 @@ def main(tier):
     log("C03: oer %.1fs" % (time.time() - t0)); t0 = time.time()
     xer_part(run, mods, cases, rng, tier)
     log("C03: xer %.1fs" % (time.time() - t0))
+    ext_layer.run_c03(run, rng, tier)
     tb = ["Coq 8.16.1 kernel", "axioms under Print Assumptions: " + (", ".join(sorted(axioms)) or "none (Closed under the global context)"),
           "extraction: ExtrOcamlBasic only; OCaml 4.13.1", "lib/c03_util.py (independent variant generators), lib/modgen.py, harness/moddrv.c, gcc + ASan/UBSan"]
     return run.finish("proof", (nthm, ndis), trusted_base=tb,
